@@ -13,7 +13,9 @@ use std::{
 
 use crate::{
     common::INTERNAL_NESTED_TYPE_NAME_PREFIX,
-    intermediate::{error::*, information_object::*, types::*, utils::*, *},
+    intermediate::{
+        constraints::integer_type_of, error::*, information_object::*, types::*, utils::*, *,
+    },
     validator::{
         linking::utils::bit_string_to_octet_string,
         parameterization::{Parameterization, ParameterizationArgument},
@@ -1294,11 +1296,8 @@ impl ASN1Value {
                 if matches![**value, ASN1Value::Integer(_)] =>
             {
                 if let ASN1Value::Integer(v) = &**value {
-                    let int_type = i.constraints.iter().fold(IntegerType::Unbounded, |acc, c| {
-                        c.integer_constraints().max_restrictive(acc)
-                    });
                     **value = ASN1Value::LinkedIntValue {
-                        integer_type: int_type,
+                        integer_type: i.int_type(),
                         value: *v,
                     };
                 }
@@ -1449,11 +1448,7 @@ impl ASN1Value {
                     Ok(Some(ASN1Value::LinkedNestedValue {
                         supertypes,
                         value: Box::new(ASN1Value::LinkedIntValue {
-                            integer_type: constraints
-                                .iter()
-                                .fold(IntegerType::Unbounded, |acc, c| {
-                                    c.integer_constraints().max_restrictive(acc)
-                                }),
+                            integer_type: integer_type_of(constraints),
                             value: distinguished_value.value,
                         }),
                     }))
